@@ -1,13 +1,245 @@
 package main
 
-func (r *Run) finish(keys []string, reports []*funcReport, results []*Result, engineErr bool, tGen, tSolve, cpu float64, bySolver map[string]int) int {
-	if engineErr {
-		return 2
+// Verdict, known findings, replay files and evidence.
+
+import (
+	"encoding/json"
+	"fmt"
+	"os"
+	"path/filepath"
+	"sort"
+	"strings"
+	"time"
+)
+
+type KnownFinding struct {
+	Property   string `json:"property"`
+	Obligation string `json:"obligation"`
+	What       string `json:"what"`
+	Witness    string `json:"witness,omitempty"`
+}
+
+type FixedEntry struct {
+	Property string `json:"property"`
+	Commit   string `json:"commit"`
+	What     string `json:"what"`
+}
+
+type KnownFile struct {
+	Findings []KnownFinding `json:"findings"`
+	Fixed    []FixedEntry   `json:"fixed"`
+}
+
+func loadKnown(path string) *KnownFile {
+	kf := &KnownFile{}
+	b, err := os.ReadFile(path)
+	if err != nil {
+		return kf
 	}
-	for _, res := range results {
-		if !res.OK() {
-			return 1
+	if err := json.Unmarshal(b, kf); err != nil {
+		fmt.Fprintf(os.Stderr, "govc: cannot parse %s: %v\n", path, err)
+	}
+	return kf
+}
+
+type ReplayFile struct {
+	Property   string            `json:"property"`
+	Obligation string            `json:"obligation"`
+	Kind       string            `json:"kind"`
+	Function   string            `json:"function"`
+	Position   string            `json:"position"`
+	Clause     string            `json:"clause"`
+	Status     string            `json:"solver_status"`
+	Solvers    []string          `json:"solvers_tried"`
+	Output     string            `json:"solver_output"`
+	SMTFile    string            `json:"smt_file"`
+	SMT        string            `json:"smt,omitempty"`
+	Model      map[string]string `json:"model,omitempty"`
+	TestSource string            `json:"replay_test_source,omitempty"`
+	TestOutput string            `json:"replay_test_output,omitempty"`
+	Reproduced bool              `json:"reproduced_on_real_code"`
+	Note       string            `json:"note"`
+}
+
+var trustedBase = []string{
+	"T1 golang.org/x/tools/go/ssa v0.29.0 (naive form) reflects the semantics of the compiled Go code; int is 64 bit",
+	"T2 the govc engine (/verif/engine): cell layout, operator translation, state merging, loop cutting, frame generation",
+	"T3 the SMT solvers z3 5.1.0, cvc5 1.0.3, z3 4.8.12 (thorough tier: two must agree)",
+	"T4 paper arguments lifting per-iteration / per-call obligations to whole runs (DESIGN.md 4.7)",
+}
+
+var baseAssumptions = []string{
+	"A-LOG logging wrappers (slog) have no effect on parser-visible state",
+	"A-ALIAS distinct pointer/slice parameters denote disjoint memory (read-only byte buffers may overlap)",
+	"A-LIMIT len(buf) <= 65535 (documented limit); slice capacities < 2^32 elements",
+	"A-STR []byte(\"literal\") is modelled as a read-only view of the literal's bytes",
+	"integers are exact fixed-width bit-vectors (no mathematical-integer abstraction)",
+}
+
+func (r *Run) finish(keys []string, reports []*funcReport, results []*Result, engineErr bool, tGen, tSolve, cpu float64, bySolver map[string]int) int {
+	prop := r.Prop
+	if prop == "" {
+		prop = "dev"
+	}
+	kf := loadKnown(r.KnownFile)
+	known := map[string]KnownFinding{}
+	for _, k := range kf.Findings {
+		if k.Property == prop {
+			known[k.Obligation] = k
 		}
 	}
-	return 0
+	var violations []*Result
+	var knownHit []KnownFinding
+	discharged, covers := 0, 0
+	var slowest []*Result
+	for _, res := range results {
+		if res.O.Kind == "cover" {
+			covers++
+		}
+		if res.OK() {
+			discharged++
+			slowest = append(slowest, res)
+			continue
+		}
+		if k, ok := known[res.O.Name]; ok && res.O.Kind != "cover" {
+			knownHit = append(knownHit, k)
+			continue
+		}
+		violations = append(violations, res)
+	}
+	sort.Slice(slowest, func(i, j int) bool { return slowest[i].Secs > slowest[j].Secs })
+	for _, k := range knownHit {
+		fmt.Printf("KNOWN-FINDING: property=%s %s: %s\n", prop, k.Obligation, k.What)
+	}
+	code := 0
+	if engineErr {
+		code = 2
+		fmt.Println("govc: engine self-check failed (a function under contract is outside the supported subset or a contract does not bind); no verdict")
+	}
+	nviol := 0
+	for _, v := range violations {
+		if v.O.Kind == "cover" {
+			// vacuity guard failed: hypotheses contradictory -> engine/contract problem, not a property violation
+			fmt.Printf("govc: vacuity guard %s is %s (expected sat): contradictory hypotheses; no verdict\n", v.O.Name, v.Status)
+			if code == 0 {
+				code = 2
+			}
+			continue
+		}
+		nviol++
+		rf := r.makeReplay(prop, v)
+		path := filepath.Join(r.ReplayDir, fmt.Sprintf("%s-%s.json", prop, safeFile(v.O.Name)))
+		writeJSON(path, rf)
+		suffix := ""
+		if !rf.Reproduced {
+			suffix = " no-failing-input-found"
+		}
+		fmt.Printf("VIOLATION property=%s replay=%s obligation=%s status=%s at %s%s\n", prop, path, v.O.Name, v.Status, v.O.Pos, suffix)
+		code = 1
+	}
+	if r.Evidence != "" {
+		r.writeEvidence(prop, keys, reports, results, discharged, nviol, len(knownHit), covers, tGen, tSolve, cpu, bySolver, slowest, engineErr)
+	}
+	return code
+}
+
+func (r *Run) makeReplay(prop string, v *Result) *ReplayFile {
+	rf := &ReplayFile{Property: prop, Obligation: v.O.Name, Kind: v.O.Kind, Function: v.O.Func, Position: v.O.Pos.String(), Clause: v.O.Note,
+		Status: v.Status, Solvers: v.Tried, Output: truncate(v.Output, 4000), SMTFile: v.File}
+	if b, err := os.ReadFile(v.File); err == nil && len(b) < 400000 {
+		rf.SMT = string(b)
+	}
+	if v.Status == "sat" {
+		r.tryReplay(v, rf)
+	} else {
+		rf.Note = "the solver returned no model (" + v.Status + "); the obligation discharged on the unchanged tree and no longer does"
+	}
+	return rf
+}
+
+func truncate(s string, n int) string {
+	if len(s) > n {
+		return s[:n] + "..."
+	}
+	return s
+}
+
+func (r *Run) writeEvidence(prop string, keys []string, reports []*funcReport, results []*Result, discharged, nviol, nknown, covers int, tGen, tSolve, cpu float64, bySolver map[string]int, slowest []*Result, engineErr bool) {
+	var samples []interface{}
+	kinds := map[string]int{}
+	for i, res := range results {
+		kinds[res.O.Kind]++
+		if i%max(1, len(results)/12) == 0 && len(samples) < 14 {
+			samples = append(samples, map[string]interface{}{
+				"obligation": res.O.Name, "kind": res.O.Kind, "position": res.O.Pos.String(), "clause": res.O.Note,
+				"status": res.Status, "solver": res.Solver, "secs": round2(res.Secs), "smt_file": res.File,
+			})
+		}
+	}
+	var fns []interface{}
+	assumedContracts := map[string]bool{}
+	for _, rep := range reports {
+		fns = append(fns, map[string]interface{}{"function": rep.Key, "obligations": rep.Obls, "trivially_true_sites": rep.Trivial, "error": rep.Err, "callee_contracts_used": rep.Contracts})
+		for _, c := range rep.Contracts {
+			assumedContracts[c] = true
+		}
+	}
+	var trusted []string
+	for k, fi := range r.W.Funcs {
+		if fi.C.Trusted && assumedContracts[k] {
+			trusted = append(trusted, k)
+		}
+	}
+	sort.Strings(trusted)
+	var slow []interface{}
+	for i, s := range slowest {
+		if i >= 5 {
+			break
+		}
+		slow = append(slow, map[string]interface{}{"obligation": s.O.Name, "secs": round2(s.Secs), "solver": s.Solver})
+	}
+	assumptions := append([]string{}, baseAssumptions...)
+	for _, t := range trusted {
+		assumptions = append(assumptions, "assumed (trusted, not verified) contract of external function "+t)
+	}
+	assumptions = append(assumptions, trustedBase...)
+	ev := map[string]interface{}{
+		"property_id": prop,
+		"tier":        r.Tier,
+		"seed":        seedFromEnv(),
+		"level":       "proof",
+		"coverage": map[string]interface{}{
+			"obligations":            len(results),
+			"discharged":             discharged,
+			"vacuity_guards":         covers,
+			"known_findings":         nknown,
+			"not_discharged":         len(results) - discharged,
+			"checker_cmd":            strings.Join(os.Args, " "),
+			"trusted_base":           trustedBase,
+			"functions_under_contract": fns,
+			"obligation_kinds":       kinds,
+			"discharged_by_solver":   bySolver,
+			"solver_cpu_s":           round2(cpu),
+			"solve_wall_s":           round2(tSolve),
+			"vcgen_s":                round2(tGen),
+			"load_s":                 round2(r.LoadSecs),
+			"slowest":                slow,
+			"samples":                samples,
+			"trusted_external_contracts": trusted,
+			"engine_error":           engineErr,
+			"explanation":            "Every obligation is generated on this run from the go/ssa of /repo's working tree and the //@ contracts in /repo/verif_contracts*.go; 'discharged' counts obligations for which a solver returned the expected answer (unsat; sat for vacuity guards).",
+		},
+		"assumptions": assumptions,
+		"wall_s":      round2(time.Since(r.T0).Seconds()),
+		"violations":  nviol,
+	}
+	writeJSON(r.Evidence, ev)
+}
+
+func round2(f float64) float64 { return float64(int(f*100+0.5)) / 100 }
+
+func seedFromEnv() int {
+	var s int
+	fmt.Sscanf(os.Getenv("VERIF_SEED"), "%d", &s)
+	return s
 }
